@@ -150,10 +150,32 @@ def write_evidence(pid, tier, seed, mod, ctx, obs, wall, extra):
         "not_decided": getattr(mod, "NOT_DECIDED", []),
     }
     cov.update(extra or {})
+    # what the references of this property declare about its domain / what it observes (part of the trusted base)
+    marks = []
+    try:
+        for (q, v), (rm, rfi, meta) in sorted(ctx.contracts.refs.items(), key=lambda kv: (kv[0][0], kv[0][1] or "")):
+            if pid not in meta.get("props", []):
+                continue
+            short = q.split(".", 1)[-1] if q.startswith("puan.") else q
+            for k in ("domain", "types", "exclude", "cases", "observe", "ignore_stores"):
+                if meta.get(k):
+                    marks.append(f"{short}: {k} = {json.dumps(meta[k], sort_keys=True)}")
+            import ast as _ast
+            if any(isinstance(n, _ast.Name) and n.id == "__unspecified__" for n in _ast.walk(rfi.node)):
+                marks.append(f"{short}: a path of the reference is left unspecified (inputs outside what the property quantifies over)")
+            if pid not in (meta.get("raise_class") or ()):
+                pass
+            else:
+                marks.append(f"{short}: exception class compared (raise_class)")
+        if marks:
+            marks.append("everywhere else: which exception class a refusal raises is not compared; logging / warnings / print are "
+                         "not part of the result as long as computing their arguments is total and consumes no one-shot iterator")
+    except Exception:
+        pass
     ev = {
         "property_id": pid, "tier": tier if tier in ("quick", "thorough") else "quick", "seed": seed, "level": "other",
         "coverage": cov,
-        "assumptions": getattr(mod, "ASSUMPTIONS", []),
+        "assumptions": list(getattr(mod, "ASSUMPTIONS", [])) + marks,
         "wall_s": round(wall, 3),
         "violations": len([o for o in real if o.status == "violation"]),
     }
